@@ -96,6 +96,46 @@ def known_functions():
     return _KNOWN
 
 
+_LOCALS = None
+
+
+def known_locals():
+    """Frozen table {module::qualname of a top-level function or method: local names bound anywhere inside it} of the
+    reference tree.  Used only to tell a temporary that a later change introduced from one the rules were written
+    against: the former is substituted into its uses (pass GN/PN of canon.py, an equivalence), the latter is left alone.
+    No verdict depends on the table: with an empty table the passes do nothing."""
+    global _LOCALS
+    if _LOCALS is None:
+        _LOCALS = {}
+        p = os.path.join(os.path.dirname(os.path.abspath(__file__)), 'known_locals.txt')
+        try:
+            with open(p) as fh:
+                for l in fh:
+                    if l.strip() and not l.startswith('#'):
+                        k, _, v = l.rstrip('\n').partition('\t')
+                        _LOCALS[k] = frozenset(x for x in v.split(',') if x)
+        except OSError:
+            _LOCALS = {}
+    return _LOCALS
+
+
+def bound_names(fn):
+    """Every name bound anywhere inside a function (parameters, stores, comprehension targets, nested defs, imports)."""
+    out = set()
+    for n in ast.walk(fn):
+        if isinstance(n, ast.Name) and isinstance(n.ctx, (ast.Store, ast.Del)):
+            out.add(n.id)
+        elif isinstance(n, ast.arg):
+            out.add(n.arg)
+        elif isinstance(n, (ast.FunctionDef, ast.AsyncFunctionDef, ast.ClassDef)) and n is not fn:
+            out.add(n.name)
+        elif isinstance(n, (ast.Import, ast.ImportFrom)):
+            out |= {(a.asname or a.name).split('.')[0] for a in n.names}
+        elif isinstance(n, ast.ExceptHandler) and n.name:
+            out.add(n.name)
+    return out
+
+
 class _CanonCache:
     """Optional on-disk memo of canonicalised functions, keyed by the function's source text (and the version of the
     canonicaliser).  Purely an optimisation: a miss recomputes from the current source; nothing else is read from it."""
@@ -105,11 +145,16 @@ class _CanonCache:
         self.pickle = pickle
         self.dir = os.environ.get('MPV_CACHE', os.path.join(os.path.dirname(os.path.dirname(os.path.abspath(__file__))), '.cache'))
         try:
-            with open(os.path.join(os.path.dirname(os.path.abspath(__file__)), 'canon.py'), 'rb') as fh:
-                ver = hashlib.sha1(fh.read()).hexdigest()[:12]
+            h = hashlib.sha1()
+            for f in ('canon.py', 'known_funcs.txt', 'known_locals.txt'):
+                with open(os.path.join(os.path.dirname(os.path.abspath(__file__)), f), 'rb') as fh:
+                    h.update(fh.read())
+            ver = h.hexdigest()[:12]
         except OSError:  # pragma: no cover
             ver = 'x'
         self.path = os.path.join(self.dir, f'canon-{ver}-{module}.pkl')
+        if os.environ.get('MPV_PASSES') is not None:     # developer override of the pass set: never share a memo
+            self.path = None
         self.data = {}
         self.new = {}
         if os.environ.get('MPV_NOCACHE'):
@@ -199,6 +244,7 @@ class Model:
         lines = self.sources[m].splitlines()
         cache = _CanonCache(m)
         known = known_functions()
+        locs = known_locals()
 
         # helpers: small functions that are not part of the vocabulary the rules were written against
         helpers = {}
@@ -231,6 +277,7 @@ class Model:
             def __init__(self):
                 self.cls = []
                 self.depth = 0
+                self.vocab = None     # reference-tree local names of the enclosing top-level function / method
 
             def visit_ClassDef(self, n):
                 self.cls.append(n.name)
@@ -247,6 +294,9 @@ class Model:
                 if hit is not None:
                     return hit
                 cls = self.cls[-1] if (self.cls and self.depth == 0) else None
+                if self.depth == 0:
+                    self.vocab = locs.get(f'{m}::{cls + "." if cls else ""}{n.name}')
+                vocab = self.vocab
                 self.depth += 1
                 saved, self.cls = self.cls, []
                 self.generic_visit(n)
@@ -256,7 +306,7 @@ class Model:
                     if helpers:
                         n = copy.deepcopy(n)
                         canon.h1_inline(n, {k: h for k, h in helpers.items() if h.node.name != n.name}, cls)
-                    out = canon.canon_function(n, protocol=proto)
+                    out = canon.canon_function(n, protocol=proto, vocab=vocab)
                 except RecursionError:  # pragma: no cover
                     out = n
                 cache.put(key, n.lineno, out)
